@@ -22,10 +22,13 @@ import (
 // ---- re-exported types, constants and helpers ---------------------------------------------------
 
 type (
-	FileInfo  = fs.FileInfo
-	FileMode  = fs.FileMode
-	DirEntry  = fs.DirEntry
-	PathError = fs.PathError
+	FileInfo     = fs.FileInfo
+	FileMode     = fs.FileMode
+	DirEntry     = fs.DirEntry
+	PathError    = fs.PathError
+	LinkError    = realos.LinkError
+	SyscallError = realos.SyscallError
+	Signal       = realos.Signal
 )
 
 const (
@@ -38,9 +41,28 @@ const (
 	O_SYNC   = realos.O_SYNC
 	O_TRUNC  = realos.O_TRUNC
 
-	ModePerm    = fs.ModePerm
-	ModeDir     = fs.ModeDir
-	ModeSymlink = fs.ModeSymlink
+	ModePerm       = fs.ModePerm
+	ModeDir        = fs.ModeDir
+	ModeSymlink    = fs.ModeSymlink
+	ModeAppend     = fs.ModeAppend
+	ModeExclusive  = fs.ModeExclusive
+	ModeTemporary  = fs.ModeTemporary
+	ModeDevice     = fs.ModeDevice
+	ModeNamedPipe  = fs.ModeNamedPipe
+	ModeSocket     = fs.ModeSocket
+	ModeSetuid     = fs.ModeSetuid
+	ModeSetgid     = fs.ModeSetgid
+	ModeCharDevice = fs.ModeCharDevice
+	ModeSticky     = fs.ModeSticky
+	ModeIrregular  = fs.ModeIrregular
+	ModeType       = fs.ModeType
+
+	SEEK_SET = 0
+	SEEK_CUR = 1
+	SEEK_END = 2
+
+	DevNull           = "/dev/null"
+	PathListSeparator = ':'
 
 	PathSeparator = '/'
 )
@@ -51,7 +73,20 @@ var (
 	ErrPermission = fs.ErrPermission
 	ErrInvalid    = fs.ErrInvalid
 	ErrClosed     = fs.ErrClosed
+
+	ErrNoDeadline       = realos.ErrNoDeadline
+	ErrDeadlineExceeded = realos.ErrDeadlineExceeded
+	ErrProcessDone      = realos.ErrProcessDone
 )
+
+func IsTimeout(err error) bool                   { return realos.IsTimeout(err) }
+func IsPathSeparator(c uint8) bool               { return c == '/' }
+func NewSyscallError(sc string, err error) error { return realos.NewSyscallError(sc, err) }
+func SameFile(a, b FileInfo) bool {
+	x, ok1 := a.(fileInfo)
+	y, ok2 := b.(fileInfo)
+	return ok1 && ok2 && x.n == y.n
+}
 
 func IsNotExist(err error) bool   { return realos.IsNotExist(err) }
 func IsExist(err error) bool      { return realos.IsExist(err) }
@@ -106,7 +141,7 @@ func (e Event) String() string {
 // Mutating reports whether the operation changed (or tried to change) the file system.
 func (e Event) Mutating() bool {
 	switch e.Op {
-	case "mkdir", "mkdirall", "create", "write", "remove", "removeall", "rename", "truncate", "chmod", "symlink", "writefile":
+	case "mkdir", "mkdirall", "create", "write", "remove", "removeall", "rename", "truncate", "chmod", "symlink", "writefile", "link", "chown", "chtimes":
 		return true
 	case "openfile":
 		return e.Flag&(O_CREATE|O_TRUNC|O_WRONLY|O_RDWR|O_APPEND) != 0
@@ -319,6 +354,14 @@ func errnoOf(kind string) syscall.Errno {
 		return syscall.EEXIST
 	case "EISDIR":
 		return syscall.EISDIR
+	case "EXDEV":
+		return syscall.EXDEV
+	case "EPERM":
+		return syscall.EPERM
+	case "EBUSY":
+		return syscall.EBUSY
+	case "EDQUOT":
+		return syscall.EDQUOT
 	}
 	return syscall.EIO
 }
@@ -558,15 +601,107 @@ func (f *File) Close() error {
 	if f.stream {
 		return nil
 	}
-	ev, _ := W.begin("close", f.name)
+	ev, flt := W.begin("close", f.name)
 	if f.closed {
 		return W.fail(ev, "close", f.name, ErrClosed)
 	}
 	f.closed = true
+	if flt != nil {
+		// a delayed write error reported at close (NFS, quota): the descriptor is gone all the same
+		return W.fail(ev, "close", f.name, errnoOf(flt.Kind))
+	}
 	return nil
 }
 
-func (f *File) Sync() error { return nil }
+func (f *File) Sync() error {
+	if f.stream {
+		return nil
+	}
+	ev, flt := W.begin("sync", f.name)
+	if f.closed {
+		return W.fail(ev, "sync", f.name, ErrClosed)
+	}
+	if flt != nil {
+		return W.fail(ev, "sync", f.name, errnoOf(flt.Kind))
+	}
+	return nil
+}
+
+func (f *File) Chmod(mode FileMode) error {
+	ev, flt := W.begin("chmod", f.name)
+	if flt != nil {
+		return W.fail(ev, "chmod", f.name, errnoOf(flt.Kind))
+	}
+	if !f.stream && f.n != nil {
+		f.n.mode = f.n.mode&^ModePerm | mode.Perm()
+	}
+	return nil
+}
+
+func (f *File) Chown(uid, gid int) error { return nil }
+func (f *File) Chdir() error             { return Chdir(f.name) }
+
+func (f *File) Seek(offset int64, whence int) (int64, error) {
+	if f.stream || f.closed {
+		return 0, &PathError{Op: "seek", Path: f.name, Err: syscall.ESPIPE}
+	}
+	base := 0
+	switch whence {
+	case SEEK_CUR:
+		base = f.off
+	case SEEK_END:
+		base = len(f.n.data)
+	}
+	if int64(base)+offset < 0 {
+		return 0, &PathError{Op: "seek", Path: f.name, Err: syscall.EINVAL}
+	}
+	f.off = base + int(offset)
+	return int64(f.off), nil
+}
+
+func (f *File) ReadAt(p []byte, off int64) (int, error) {
+	if f.stream || f.closed || f.n.kind == kDir {
+		return 0, &PathError{Op: "read", Path: f.name, Err: syscall.EINVAL}
+	}
+	if int(off) >= len(f.n.data) {
+		return 0, io.EOF
+	}
+	n := copy(p, f.n.data[off:])
+	if n < len(p) {
+		return n, io.EOF
+	}
+	return n, nil
+}
+
+func (f *File) WriteAt(p []byte, off int64) (int, error) {
+	save := f.off
+	f.off = int(off)
+	n, err := f.Write(p)
+	f.off = save
+	return n, err
+}
+
+func (f *File) ReadDir(n int) ([]DirEntry, error) { return ReadDir(f.name) }
+func (f *File) Readdir(n int) ([]FileInfo, error) {
+	des, err := ReadDir(f.name)
+	var out []FileInfo
+	for _, d := range des {
+		fi, _ := d.Info()
+		out = append(out, fi)
+	}
+	return out, err
+}
+func (f *File) Readdirnames(n int) ([]string, error) {
+	des, err := ReadDir(f.name)
+	var out []string
+	for _, d := range des {
+		out = append(out, d.Name())
+	}
+	return out, err
+}
+func (f *File) SetDeadline(time.Time) error      { return ErrNoDeadline }
+func (f *File) SetReadDeadline(time.Time) error  { return ErrNoDeadline }
+func (f *File) SetWriteDeadline(time.Time) error { return ErrNoDeadline }
 
 func (f *File) Stat() (FileInfo, error) {
 	if f.stream {
@@ -608,7 +743,10 @@ func WriteFile(name string, data []byte, perm FileMode) error {
 }
 
 func Remove(name string) error {
-	ev, _ := W.begin("remove", name)
+	ev, flt := W.begin("remove", name)
+	if flt != nil {
+		return W.fail(ev, "remove", name, errnoOf(flt.Kind))
+	}
 	parent, base, n, err := W.walk(name, false, 0)
 	if err != nil {
 		return W.fail(ev, "remove", name, err)
@@ -624,7 +762,10 @@ func Remove(name string) error {
 }
 
 func RemoveAll(name string) error {
-	ev, _ := W.begin("removeall", name)
+	ev, flt := W.begin("removeall", name)
+	if flt != nil {
+		return W.fail(ev, "unlinkat", name, errnoOf(flt.Kind))
+	}
 	parent, base, n, err := W.walk(name, false, 0)
 	if err != nil || n == nil {
 		_ = ev
@@ -639,19 +780,113 @@ func RemoveAll(name string) error {
 }
 
 func Rename(oldp, newp string) error {
-	ev, _ := W.begin("rename", oldp+" -> "+newp)
+	ev, flt := W.begin("rename", oldp+" -> "+newp)
+	lerr := func(e error) error {
+		le := &LinkError{Op: "rename", Old: oldp, New: newp, Err: e}
+		ev.Err = le.Error()
+		return le
+	}
+	if flt != nil {
+		return lerr(errnoOf(flt.Kind))
+	}
 	op, ob, on, err := W.walk(oldp, false, 0)
 	if err != nil || on == nil {
-		return W.fail(ev, "rename", oldp, syscall.ENOENT)
+		return lerr(syscall.ENOENT)
 	}
-	np, nb, _, err := W.walk(newp, false, 0)
+	np, nb, nn, err := W.walk(newp, false, 0)
 	if err != nil {
-		return W.fail(ev, "rename", newp, err)
+		return lerr(err)
+	}
+	if nn != nil && nn != on {
+		// rename(2): a directory replaces only an empty directory, a non-directory only a non-directory
+		switch {
+		case on.kind == kDir && nn.kind != kDir:
+			return lerr(syscall.ENOTDIR)
+		case on.kind != kDir && nn.kind == kDir:
+			return lerr(syscall.EISDIR)
+		case on.kind == kDir && len(nn.children) > 0:
+			return lerr(syscall.ENOTEMPTY)
+		}
 	}
 	delete(op.children, ob)
 	np.children[nb] = on
 	return nil
 }
+
+func Link(oldname, newname string) error {
+	ev, flt := W.begin("link", oldname+" -> "+newname)
+	lerr := func(e error) error {
+		le := &LinkError{Op: "link", Old: oldname, New: newname, Err: e}
+		ev.Err = le.Error()
+		return le
+	}
+	if flt != nil {
+		return lerr(errnoOf(flt.Kind))
+	}
+	_, _, on, err := W.walk(oldname, false, 0)
+	if err != nil || on == nil {
+		return lerr(syscall.ENOENT)
+	}
+	if on.kind == kDir {
+		return lerr(syscall.EPERM)
+	}
+	np, nb, nn, err := W.walk(newname, false, 0)
+	if err != nil {
+		return lerr(err)
+	}
+	if nn != nil {
+		return lerr(syscall.EEXIST)
+	}
+	np.children[nb] = on // a hard link: the same node under a second name
+	return nil
+}
+
+func Readlink(name string) (string, error) {
+	ev, _ := W.begin("readlink", name)
+	_, _, n, err := W.walk(name, false, 0)
+	if err != nil || n == nil {
+		return "", W.fail(ev, "readlink", name, syscall.ENOENT)
+	}
+	if n.kind != kSymlink {
+		return "", W.fail(ev, "readlink", name, syscall.EINVAL)
+	}
+	return n.target, nil
+}
+
+func Truncate(name string, size int64) error {
+	ev, flt := W.begin("truncate", name)
+	if flt != nil {
+		return W.fail(ev, "truncate", name, errnoOf(flt.Kind))
+	}
+	_, _, n, err := W.walk(name, true, 0)
+	if err != nil || n == nil {
+		return W.fail(ev, "truncate", name, syscall.ENOENT)
+	}
+	if n.kind == kDir {
+		return W.fail(ev, "truncate", name, syscall.EISDIR)
+	}
+	for int64(len(n.data)) < size {
+		n.data = append(n.data, 0)
+	}
+	n.data = n.data[:size]
+	return nil
+}
+
+func chmeta(op, name string, follow bool) error {
+	ev, flt := W.begin(op, name)
+	if flt != nil {
+		return W.fail(ev, op, name, errnoOf(flt.Kind))
+	}
+	_, _, n, err := W.walk(name, follow, 0)
+	if err != nil || n == nil {
+		return W.fail(ev, op, name, syscall.ENOENT)
+	}
+	return nil
+}
+
+func Chown(name string, uid, gid int) error             { return chmeta("chown", name, true) }
+func Lchown(name string, uid, gid int) error            { return chmeta("chown", name, false) }
+func Chtimes(name string, atime, mtime time.Time) error { return chmeta("chtimes", name, true) }
 
 func Symlink(oldname, newname string) error {
 	ev, _ := W.begin("symlink", newname)
@@ -667,12 +902,15 @@ func Symlink(oldname, newname string) error {
 }
 
 func Chmod(name string, mode FileMode) error {
-	ev, _ := W.begin("chmod", name)
+	ev, flt := W.begin("chmod", name)
+	if flt != nil {
+		return W.fail(ev, "chmod", name, errnoOf(flt.Kind))
+	}
 	_, _, n, err := W.walk(name, true, 0)
 	if err != nil || n == nil {
 		return W.fail(ev, "chmod", name, syscall.ENOENT)
 	}
-	n.mode = mode.Perm()
+	n.mode = n.mode&^ModePerm | mode.Perm()
 	return nil
 }
 
@@ -702,14 +940,27 @@ func ReadDir(name string) ([]DirEntry, error) {
 	return out, nil
 }
 
-func Getenv(key string) string            { return "" }
-func LookupEnv(key string) (string, bool) { return "", false }
-func Environ() []string                   { return nil }
-func Getpid() int                         { return 4242 }
-func Hostname() (string, error)           { return "simhost", nil }
-func TempDir() string                     { return "/tmp" }
-func UserHomeDir() (string, error)        { return "/home/sim", nil }
-func Executable() (string, error)         { return "/usr/bin/emerge", nil }
+func Getenv(key string) string                      { return "" }
+func LookupEnv(key string) (string, bool)           { return "", false }
+func Environ() []string                             { return nil }
+func Setenv(key, value string) error                { return nil }
+func Unsetenv(key string) error                     { return nil }
+func Clearenv()                                     {}
+func ExpandEnv(s string) string                     { return realos.Expand(s, Getenv) }
+func Expand(s string, m func(string) string) string { return realos.Expand(s, m) }
+func Getuid() int                                   { return 1000 }
+func Geteuid() int                                  { return 1000 }
+func Getgid() int                                   { return 1000 }
+func Getegid() int                                  { return 1000 }
+func Getppid() int                                  { return 1 }
+func Getpagesize() int                              { return 4096 }
+func UserCacheDir() (string, error)                 { return "/home/sim/.cache", nil }
+func UserConfigDir() (string, error)                { return "/home/sim/.config", nil }
+func Getpid() int                                   { return 4242 }
+func Hostname() (string, error)                     { return "simhost", nil }
+func TempDir() string                               { return "/tmp" }
+func UserHomeDir() (string, error)                  { return "/home/sim", nil }
+func Executable() (string, error)                   { return "/usr/bin/emerge", nil }
 
 func MkdirTemp(dir, pattern string) (string, error) {
 	if dir == "" {
